@@ -12,10 +12,10 @@ def ref_enum_json_fix(schema):
 def json_event(case):
     from google.protobuf import json_format
     w = msgev.world()
-    schema, C, R = w["schema"], w["bp"], msgev.ref_classes()
+    schema, C, R = w["schema"], msgev.classes_for(case), msgev.ref_classes()
     ty, val = case["ty"], case["val"]
     ev = {"op": "json", "ty": ty, "val": val, "res": "ok", "valid_json": True, "tree": {"t": "obj", "kv": []}, "ref_res": "ok", "ref_obs": val,
-          "ref_tree": {"t": "obj", "kv": []}, "bp_res2": "ok", "bp_obs2": val, "text": "", "ref_text": "", "case": {"ty": ty, "tag": case.get("tag", "")}}
+          "ref_tree": {"t": "obj", "kv": []}, "bp_res2": "ok", "bp_obs2": val, "text": "", "ref_text": "", "case": {"ty": ty, "tag": case.get("tag", ""), "world": case.get("world", "dyn")}}
     try:
         m = dyn.conc_bp(schema, C, ty, val)
         text = m.to_json()
@@ -67,6 +67,9 @@ def cases(ctx, quick):
     cs += msgev.random_cases(schema, ctx.rnd, 1500 if quick else 40000)
     if quick:
         cs = [c for k, c in enumerate(cs) if c.get("tag") == "random" or k % 2 == 0]
+    # ... and a part of them again on the classes the real plugin generates for the schema
+    msgev.gen_world()
+    cs += msgev.as_generated([c for k, c in enumerate(cs) if k % (4 if quick else 2) == 0], skip=("TOneP", "TNames"))
     return cs
 
 
@@ -135,7 +138,9 @@ def run(ctx):
 
 
 def redrive(ev):
-    e = json_event({"ty": ev["ty"], "val": ev["val"], "tag": ev.get("case", {}).get("tag", "")})
+    if ev.get("case", {}).get("world") == "gen":
+        msgev.gen_world()
+    e = json_event({"ty": ev["ty"], "val": ev["val"], "tag": ev.get("case", {}).get("tag", ""), "world": ev.get("case", {}).get("world", "dyn")})
     e.pop("text", None)
     e.pop("ref_text", None)
     return e
